@@ -46,7 +46,7 @@ def main():
                          "failed_obligations": failed[:12], "violation_lines": vio[:6]})
             print(sid, "confirmed" if ok else "NOT CONFIRMED", "| caught" if meta["caught"] else "| MISSED", "|", tests_line)
             if ok:
-                dst = os.path.join(ROOT, "seeded", sid)
+                dst = os.path.join(ROOT, os.environ.get("SEED_DST", "seeded"), sid)
                 os.makedirs(dst, exist_ok=True)
                 for f in ("patch.diff", "demo.py"):
                     shutil.copy(os.path.join(d, f), os.path.join(dst, f))
